@@ -56,4 +56,19 @@ example : (findMatches (fun (a b : Nat) => a == b) [1, 2, 1] [1, 1, 3]).pairs = 
     (findMatches (fun (a b : Nat) => a == b) [1, 2, 1] [1, 1, 3]).orphansSrc = [2] ∧
     (findMatches (fun (a b : Nat) => a == b) [1, 2, 1] [1, 1, 3]).orphansRef = [3] := by decide
 
+/-- negation witness for the full statement behind C11_filter_names_partial (finding F14):
+    name 0 = "a @ b" is a PLAIN (tabular / point) field name, `remove_annotation` maps it to 1 = "a".
+    The inclusion filter selects exactly "a @ b"; the field differs (predicate fails).  The code filters the
+    field out and the verdict is true; the user-level reading compares it and the verdict is false. -/
+def f14Strip : Nat → Nat := fun n => if n = 0 then 1 else n
+def f14Incl : Nat → Bool := fun n => n = 0
+example : Spec.plainFixed f14Strip (fun _ => false) [⟨0, 0⟩] = false := by decide
+example : (comparatorCall (selectedName f14Strip f14Incl (fun _ => false)) true (fun _ _ => .fail) [⟨0, 0⟩] [⟨0, 0⟩]).suite.bool = true ∧
+    (comparatorCall (Spec.userSelected f14Strip (fun _ => false) f14Incl (fun _ => false)) true (fun _ _ => .fail) [⟨0, 0⟩] [⟨0, 0⟩]).suite.bool = false := by
+  decide
+example : (comparatorCall (selectedName f14Strip f14Incl (fun _ => false)) true (fun _ _ => .fail) [⟨0, 0⟩] [⟨0, 0⟩]).suite.iter
+    = [⟨0, .filtered⟩] := by decide
+-- the hypothesis of the partial theorem is satisfiable on a non-trivial input (annotated cell field + plain fields)
+example : Spec.plainFixed wStrip (fun n => n = 2) wSrc = true := by decide
+
 end Fc
